@@ -21,7 +21,8 @@ RULE = ('E2 explicit-state exploration of library state: events (50: '
         'attribute and function default/closure; BFS with deduplication '
         '(closes at 2 states on the unchanged tree: switch off/on; the state '
         'count is reported, never judged) plus every history of depth <= 2 '
-        'and every a;b;a history (thorough: every history of depth 3) '
+        'and every a;b;a history and every depth-3 history over a core of '
+        '16 events (thorough: every history of depth 3 over all 50) '
         'without deduplication, each rebuilt from a fresh '
         'import; oracle: every event\'s canonical result equals the result '
         'of that event alone in a fresh interpreter (one subprocess per '
@@ -35,7 +36,7 @@ RULE = ('E2 explicit-state exploration of library state: events (50: '
         'first-use initialisation races; a witness harness with a toggle '
         'shows the interleavings are real. A state is a history or a schedule; non-trivial = history of '
         'length >= 2 / schedule with >= 1 preemption.')
-BOUNDS = {'quick': {'history_depth': '2 + all a;b;a', 'threads': 2, 'preemptions': '2 (1 for the header and 3-thread harnesses)'},
+BOUNDS = {'quick': {'history_depth': '2 + all a;b;a + depth 3 over 16 core events', 'threads': 2, 'preemptions': '2 (1 for the header and 3-thread harnesses)'},
           'thorough': {'history_depth': 3, 'threads': '2 and 3',
                        'preemptions': '3 (2 for the header and 3-thread '
                        'harnesses)'}}
@@ -79,6 +80,11 @@ def tasks(tier, seed):
     depth = 3 if tier == 'thorough' else 2
     out = [('bfs',)]
     out += [('hist', i, depth) for i in range(len(EVENTS))]
+    if depth < 3:
+        # every depth-3 history over a core of 16 events (one per kind of
+        # call: construct, encode, decode, each kind of failure, toggles,
+        # environment change, mutation of a result)
+        out += [('hist3', i) for i in core_events()]
     for h in range(len(HARNESSES)):
         bound = HARNESSES[h][3 if tier == 'thorough' else 2]
         for k in range(SHARDS):
@@ -193,6 +199,32 @@ def explore_bfs(ctx):
                             % MAX_BFS_STATES)
     ctx.count('bfs_states', len(states))
     ctx.count('bfs_transitions', transitions)
+
+
+CORE = ['construct Queue.Declare', 'marshal Queue.Declare',
+        'marshal ContentHeader', 'unmarshal Queue.Declare',
+        'unmarshal ContentHeader', 'unmarshal truncated',
+        'unmarshal over-long array',
+        'unmarshal header failing inside its properties',
+        'construct bad exchange name', 'toggle (True)', 'toggle (False)',
+        'encode flag-sensitive table', 'env: decimal context prec=6',
+        'marshal refused mid-way', 'mutate decoded arguments',
+        'encode Decimal 21474836.47']
+
+
+def core_events():
+    names = [e[0] for e in EVENTS]
+    return [names.index(n) for n in CORE if n in names]
+
+
+def explore_core3(ctx, first):
+    core = core_events()
+    for b in core:
+        for c_ in core:
+            hist = (first, b, c_)
+            ctx.case(('hist', hist), True, sample=lambda: {
+                'history': [EVENTS[i][0] for i in hist]})
+            run_history(ctx, hist)
 
 
 def explore_histories(ctx, first, depth):
@@ -469,6 +501,8 @@ def run(task, ctx):
             explore_bfs(ctx)
         elif kind == 'hist':
             explore_histories(ctx, task[1], task[2])
+        elif kind == 'hist3':
+            explore_core3(ctx, task[1])
         elif kind == 'cold':
             explore_schedules(ctx, task[1], (task[2], COLD_SHARDS), task[3],
                               cold=True)
